@@ -63,11 +63,18 @@ def cases(draw):
       ops.append(['record'])
     else:
       ops.append(['stop'])
+  ratio_reset = draw(st.integers(0, 4)) == 0
+  if ratio_reset:
+    # the quality monitor looks at the previous instrumentation period: make sure there are some, and time between them
+    for _ in range(draw(st.integers(1, 3))):
+      pos = draw(st.integers(1, len(ops)))
+      ops[pos:pos] = [['record'], ['advance', draw(st.sampled_from([1.0, 3.0, 6.0]))]]
   return {'ndest': nd, 'protocol': draw(st.sampled_from(['pickle', 'line'])),
           'max_queue': draw(st.integers(1, 12)), 'batch': draw(st.integers(1, 15)),
           'low_pct': draw(st.sampled_from([0.2, 0.5, 0.8])), 'hard_pct': draw(st.sampled_from([1.0, 1.25, 2])),
           'flow': draw(st.booleans()), 'dynamic': draw(st.booleans()), 'max_retries': draw(st.sampled_from([1, 2])),
           'pause_after': draw(st.sampled_from([None, None, None, 25, 120, 600])),
+          'ratio_reset': ratio_reset,
           'ops': ops}
 
 
@@ -135,7 +142,10 @@ def judge(ctx, case, t):
         return False
   for d in t.dests:
     for tr in t.transports[d]:
-      if getattr(tr, 'late_writes', None):
+      # a close requested by the stop: nothing may be written after it (a quality reset closes a connection while
+      # the batch in hand is still written; TCP flushes it)
+      info_ = t.closing_seen.get(id(tr), {})
+      if getattr(tr, 'late_writes', None) and not info_.get('quality_reset'):
         ctx.fail('C07:write-after-close', 'destination %r: %d bytes were written to the connection after loseConnection() had '
                  'been called on it (close requested before the queue was transmitted)' % (d, sum(map(len, tr.late_writes))),
                  case, 'stop-drains')
@@ -143,8 +153,8 @@ def judge(ctx, case, t):
   # stop: a connection may be closed only after what was queued at stop time has been written
   if t.stop_snapshot is not None:
     for info in t.closing_seen.values():
-      if not info['stopped']:
-        continue
+      if not info['stopped'] or info.get('quality_reset'):
+        continue           # (a quality reset is not the stop closing the connection: the queue goes out on the next one)
       d = info['dest']
       missing = [x for x in t.stop_snapshot[d] if x not in info['written']]
       if missing:
@@ -224,6 +234,10 @@ def classify(case, t):
       nt = True
   if any(getattr(tr, 'pushed_back', 0) for d in t.dests for tr in t.transports[d]):
     classes.append('transport pushed back from inside write()')
+  if any(v for k, v in t.stats.items() if k.endswith('slowConnectionReset')) or any(
+      sum(v) for k, v in t.reported.items() if k.endswith('slowConnectionReset')):
+    classes.append('connection reset for quality reasons')
+    nt = True
   if t.records:
     classes.append('instrumentation timer fired')
     if any(t.own_drops.values()):
